@@ -14,6 +14,7 @@ import ScnVerif.Model.Filtering
 * `c19.slopes <f|i> <n> <x…> <y…>` → slopes as hex bit patterns
 * `c19.groupids <atol> <f|i> <n> <x…> <y…>` → group id per point
 * `c19.inphase <ref> <rtol> <x₁ …>` → indices kept
+* `c19.inphase32 <ref f32> <rtol f64> <x₁ … f32>` → indices kept when the quotient is single precision
 * `c19.rint <x>` → round half even
 -/
 namespace ScnVerif.Driver.C19
@@ -25,6 +26,7 @@ def ints? (ws : List String) : Option (List Int) := ws.mapM String.toInt?
 def coords? (kind : String) (ws : List String) : Option Coords :=
   if kind = "f" then (floats? ws).map Coords.f
   else if kind = "i" then (ints? ws).map Coords.i
+  else if kind = "g" then (ws.mapM f32?).map Coords.g
   else none
 
 def split? (kind : String) (n : Nat) (rest : List String) : Option (Coords × List Float) :=
@@ -39,6 +41,7 @@ def item (c : Coords) (ys : List Float) (r : Nat × Nat) : String :=
   let k := collapse c ys r
   match c with
   | .f _ => s!"{r.1}:{r.2}:{f64Hex k.value}:{f64Hex k.lowF}:{f64Hex k.highF}"
+  | .g _ => s!"{r.1}:{r.2}:{f64Hex k.value}:{f64Hex k.lowF}:{f64Hex k.highF}"
   | .i _ => s!"{r.1}:{r.2}:{f64Hex k.value}:{k.lowI}:{k.highI}"
 
 def handle : List String → Option String
@@ -91,6 +94,7 @@ def handle : List String → Option String
           let k := collapse e ys r
           match e with
           | .f _ => s!"{f64Hex k.lowF}:{f64Hex k.highF}"
+          | .g _ => s!"{f64Hex k.lowF}:{f64Hex k.highF}"
           | .i _ => s!"{k.lowI}:{k.highI}")))
   | "c19.slopes" :: kind :: n :: rest => do
       let n ← n.toNat?
@@ -106,6 +110,11 @@ def handle : List String → Option String
       let rtol ← f64? rtol
       let xs ← floats? xs
       some ("ok " ++ natList (keptIndices xs ref rtol))
+  | "c19.inphase32" :: ref :: rtol :: xs => do
+      let ref ← f32? ref
+      let rtol ← f64? rtol
+      let xs ← xs.mapM f32?
+      some ("ok " ++ natList (keptIndices32 xs ref rtol))
   | ["c19.rint", x] => do
       let x ← f64? x
       some (f64Hex (Rint.rint x))
